@@ -359,6 +359,9 @@ func (rc *refCat) propNode(key string, v Val) Unordered {
 		if r := allOfRules(v.Obj); r != nil {
 			item.Set("rules", r)
 		}
+		for w := 0; w < v.Wrap; w++ {
+			item = U("tokenType", "array", "type", "array", "children", []any{item}, "optional", true)
+		}
 		n.Set("tokenType", "array").Set("type", "array").Set("children", []any{item})
 	}
 	if v.Optional {
